@@ -337,3 +337,83 @@ func VxH_C18_arc_center() {
 	// square roots) was tried and is beyond z3's nlsat within 20 minutes: not claimed.
 	_, _ = cx, cy
 }
+
+// path data details: an arc command with two argument groups draws two arcs, the second one
+// from the end of the first to its own end point; numbers may use an upper-case exponent.
+func VxH_C18_path_details() {
+	var p pathParser
+	rel := vx.Choose("relative", 2) == 1
+	x1 := []Fl{10, 20, -10}[vx.Choose("x1", 3)]
+	x2 := []Fl{20, 5, 30}[vx.Choose("x2", 3)]
+	y2 := []Fl{0, 10}[vx.Choose("y2", 2)]
+	cmd := "A"
+	if rel {
+		cmd = "a"
+	}
+	f := func(v Fl) string { return strconv.FormatFloat(float64(v), 'f', -1, 32) }
+	text := "M0 0 " + cmd + "50 50 0 0 1 " + f(x1) + " 0 50 50 0 0 1 " + f(x2) + " " + f(y2)
+	items, err := p.parsePath(text)
+	vx.Reach("parsed")
+	vx.Assert("arc-path-parses", err == nil && len(items) >= 3)
+	end1 := point{x1, 0}
+	end2 := point{x2, y2}
+	if rel {
+		end2 = point{x1 + x2, y2}
+	}
+	near := func(a, b point) bool {
+		return vx.ApproxEq(float64(a.x), float64(b.x)) && vx.ApproxEq(float64(a.y), float64(b.y))
+	}
+	last := items[len(items)-1]
+	vx.Assert("path-ends-at-the-second-arc-end-point", last.op == cubicTo && near(last.args[2], end2))
+	passes := false
+	for _, it := range items { // (a second arc of zero length is omitted: the first one may be the last item)
+		if it.op == cubicTo && near(it.args[2], end1) {
+			passes = true
+		}
+	}
+	vx.Assert("first-arc-ends-at-its-end-point", passes)
+	// upper-case exponent
+	items, err = p.parsePath("M1E1 2 L 3 4")
+	vx.Assert("upper-case-exponent", err == nil && len(items) == 2 && items[0].op == moveTo && near(items[0].args[0], point{10, 2}))
+}
+
+// <rect rx ry>: a missing radius takes the value of the other one, both are read from their
+// own attribute.
+func VxH_C18_rect_radii() {
+	vals := []string{"", "10", "5", "2.5"}
+	rx := vals[vx.Choose("rx", len(vals))]
+	ry := vals[vx.Choose("ry", len(vals))]
+	node := &cascadedNode{tag: "rect", attrs: nodeAttributes{"rx": rx, "ry": ry}}
+	d, err := newRect(node, nil)
+	vx.Reach("built")
+	vx.Assert("rect-built", err == nil)
+	r := d.(rect)
+	num := func(s string) Fl {
+		v, _ := strconv.ParseFloat(s, 32)
+		return Fl(v)
+	}
+	wantX, wantY := rx, ry
+	if wantX == "" {
+		wantX = wantY
+	}
+	if wantY == "" {
+		wantY = wantX
+	}
+	vx.Assert("rx-from-its-attribute", r.rx.V == num(wantX))
+	vx.Assert("ry-from-its-attribute", r.ry.V == num(wantY))
+}
+
+// lengths in SVG attributes: a number followed by any of the supported units is read as that
+// number in that unit.
+func VxH_C18_value_units() {
+	nums := []string{"5", "2.5", "-1", "0"}
+	n := nums[vx.Choose("number", len(nums))]
+	u := Unit(vx.Choose("unit", int(Ex)) + 1)
+	sp := []string{"", " "}[vx.Choose("space", 2)]
+	v, err := parseValue(n + sp + u.String())
+	vx.Reach("parsed")
+	want, _ := strconv.ParseFloat(n, 32)
+	vx.Assert("value-with-unit-parses", err == nil)
+	vx.Assert("number-kept", v.V == Fl(want))
+	vx.Assert("unit-kept", v.U == u)
+}
